@@ -35,7 +35,7 @@ def amp_fn(ck, prog):
     ck.require(n >= 1, 'compute_amp_factor: no Some path')
 
 
-def ramp_update(ck, prog):
+def ramp_update(ck, prog, only_bounds=False):
     def body(it):
         c = it.ctx
         st = setup_trio(it)
@@ -59,7 +59,10 @@ def ramp_update(ck, prog):
             cfg = p.world.storage['config']
             g = lambda nm: it_fld(p.prog, cfg, nm)
             cur = g('initial_amp')           # the stored ramp starts at the current interpolated amp
-            ck.oblige('C04.ramp.accept.minmax', p, z3.Or(nf < MIN_AMP, nf > MAX_AMP), 'accepted target within [1, 10^6]')
+            ck.oblige('%s.ramp.accept.minmax' % ck.pid, p, z3.Or(nf < MIN_AMP, nf > MAX_AMP), 'accepted target within [1, 10^6]')
+            if only_bounds:
+                ck.oblige('C18.trio.ramp.valid', p, z3.Or(g('future_amp') < MIN_AMP, g('future_amp') > MAX_AMP, g('initial_amp') < MIN_AMP, g('initial_amp') > MAX_AMP), 'amplification stays within [1, 10^6]')
+                continue
             ck.oblige('C04.ramp.accept.factor_up', p, z3.And(nf > cur, nf > MAX_CHANGE * cur), 'an increase is at most a factor 10 from the current value')
             ck.oblige('C04.ramp.accept.factor_down.inverted', p, z3.And(nf < cur, nf * MAX_CHANGE < cur),
                       'the decrease test is inverted: a target MORE than a factor 10 below the current amp is accepted (and smaller decreases are rejected)', site='ramp-down comparison')
